@@ -2225,3 +2225,27 @@ variant('b-parser-yields-ignored-frames', ['C04'], 'rsocket/frame_parser.py',
 variant('b-parser-yields-only-ignored-frames', ['C04'], 'rsocket/frame_parser.py',
         "                if new_frame is not None:\n                    yield new_frame\n",
         "                if new_frame is None:\n                    yield new_frame\n", ('C04.k', 'FrameParser.receive_data'))
+
+# C01.p responder set-up; collector count
+variant('b-stream-responder-publisher-not-subscribed', ['C01'], 'rsocket/handlers/request_stream_responder.py',
+        "        self.publisher.subscribe(self.subscriber)\n", "        pass\n", ('C01.p', 'RequestStreamResponder.setup'))
+variant('b-channel-subscriber-for-the-wrong-stream', ['C01'], 'rsocket/handlers/request_cahnnel_common.py',
+        "        self.subscriber = StreamSubscriber(self.stream_id, self.socket, self)",
+        "        self.subscriber = StreamSubscriber(0, self.socket, self)", ('C01.p', 'setup'))
+variant('b-collector-count-not-advanced', ['C01'], 'rsocket/awaitable/collector_subscriber.py',
+        "        self._total_received_count += 1\n", "        pass\n", ('C01.h', 'cut-off'))
+variant('b-collector-count-advanced-after-the-test', ['C01'], 'rsocket/awaitable/collector_subscriber.py',
+        """        self._received_count += 1
+        self._total_received_count += 1
+
+        if is_complete:""", """        self._received_count += 1
+        reached = self._limit_count is not None and self._limit_count == self._total_received_count
+        self._total_received_count += 1
+
+        if reached and not is_complete:
+            self.subscription.cancel()
+            self.is_done.set()
+        elif is_complete:""", ('C01.h', 'cut-off'))
+variant('t-collector-count-expanded', ['C01'], 'rsocket/awaitable/collector_subscriber.py',
+        "        self._total_received_count += 1\n", "        self._total_received_count = self._total_received_count + 1\n",
+        kind='twin')
